@@ -333,6 +333,28 @@ def target_state(graph, rep):
     return QuantumState(graph_to_density(graph), rep_type="dm")
 
 
+def trs_pool(rare_first=True):
+    """Solver targets chosen by execution coverage of the deterministic solver (engine/covpool.py, committed list
+    /verif/pools/trs_targets.json): labelled 5 - 7 vertex graphs, those that reach rarely executed solver code first."""
+    import json
+    import os
+    import networkx as nx
+    path = os.path.join(os.path.dirname(os.path.dirname(os.path.abspath(__file__))), "pools", "trs_targets.json")
+    if not os.path.exists(path):
+        return []
+    d = json.load(open(path))
+    rare = set(d.get("rarely_executed", {}))
+    out = []
+    for rec in d["graphs"]:
+        g = nx.Graph()
+        g.add_nodes_from(range(rec["n"]))
+        g.add_edges_from(rec["edges"])
+        out.append((len(rare & set(rec.get("new_transitions", []))) + len(rare & set(rec.get("rare_transitions", []))), g))
+    if rare_first:
+        out.sort(key=lambda t: -t[0])
+    return [g for _, g in out]
+
+
 # ----------------------------------------------------------------------------------------------------------
 # full structural projection of a CircuitDAG (C12 / C04 / C18)
 def _nid(n):
